@@ -274,6 +274,17 @@ impl BlockingManager {
         all_expired
     }
     
+    /// The keys of a database that have blocked clients, sorted
+    pub fn blocked_keys(&self, db: DatabaseIndex) -> Vec<Vec<u8>> {
+        if db >= self.registries.len() {
+            return Vec::new();
+        }
+        let registry = self.registries[db].read().unwrap();
+        let mut keys: Vec<Vec<u8>> = registry.blocked_keys.iter().cloned().collect();
+        keys.sort();
+        keys
+    }
+    
     /// Get a reference to the wake queue for checking if work is available
     pub fn has_pending_wakeups(&self) -> bool {
         !self.wake_queue.is_empty()
